@@ -10,7 +10,7 @@ NOTES = ("All checks: /venv/bin/python run_check.py <ID> --tier quick|thorough. 
          "(VIOLATION line + replay file under /verif/replays), 2 harness error. Repo code is imported from "
          "VERIF_REPO (default /repo) working tree via sys.path; nothing is installed or cached.")
 
-CLAIMED = ["C01", "C02", "C03", "C04", "C05", "C06", "C08", "C09", "C10", "C11", "C12", "C13", "C14", "C15", "C16", "C17", "C19", "C20", "C21", "C22", "C24", "C25", "C26", "C28", "C29", "C30", "C31", "C35", "C36", "C37"]
+CLAIMED = ["C01", "C02", "C03", "C04", "C05", "C06", "C08", "C09", "C10", "C11", "C12", "C13", "C14", "C15", "C16", "C17", "C19", "C20", "C21", "C22", "C24", "C25", "C26", "C27", "C28", "C29", "C30", "C31", "C35", "C36", "C37"]
 
 _PURE = "pure function of its input: no schedule, clock, fault, I/O ordering or history to simulate (DESIGN §5)"
 _PENDING = "check not built yet in this session (planned, see DESIGN §4); not claimed until its check exists"
